@@ -101,6 +101,8 @@ def check(P, rep):
             if e.kind in ('sw', 'sr', 'supd') and key_variant(e.key)[0] in ('ChainName', 'InterchainTokenWasmHash', 'Gateway', 'GasService', 'ItsHubAddress'):
                 rep.check(en == '__constructor' and e.kind == 'sw' and is_param(core(e.val)), 'C11.R1', '%s:%s-writer' % (en, key_variant(e.key)[0]),
                           '%s is set only by the constructor from a parameter' % key_variant(e.key)[0], esite(g, e), e.describe()[:160])
+    # a delivered deploy message / a local deploy cannot die in a TTL extension of an entry that need not exist
+    check_ttl_extensions(P, rep, 'C11.R2', CN, ['execute', 'deploy_interchain_token', 'register_canonical_token'], 2)
     storage_classes(P, rep, 'C11.R3', CN, {'TokenIdConfigKey': 'persistent', 'ChainName': 'instance'})
     storage_classes(P, rep, 'C11.R4', 'interchain_token', {'Minter': 'instance', 'TokenId': 'instance', 'Interfaces_Owner': 'instance'})
     # R3 registry writes (all entries) + R2 deploy address
